@@ -12,7 +12,6 @@ package c13core
 import (
 	"context"
 	"errors"
-	"path/filepath"
 	"sort"
 	"strings"
 	"time"
@@ -1136,29 +1135,6 @@ func RunCase(out *vh.Out, rng *vh.Rand, tgt Target, big bool) {
 		}
 	}
 	r.dump()
-}
-
-// JoinProbe writes `join` lines comparing filepath.Join with the model's transliteration of path.Clean.
-func JoinProbe(out *vh.Out, rng *vh.Rand, n int) {
-	out.Reset()
-	out.Op("ok", "cfg", "inmem", "-")
-	alphabet := []string{"a", "b", ".", "..", "", "/", "foo", "...", ".a", "a.", "é", "-"}
-	mk := func() string {
-		m := rng.Intn(6)
-		parts := make([]string, m)
-		for i := range parts {
-			parts[i] = rng.Pick(alphabet)
-		}
-		s := strings.Join(parts, "/")
-		if rng.Chance(20) {
-			s = "/" + s
-		}
-		return s
-	}
-	for i := 0; i < n; i++ {
-		p, a := mk(), mk()
-		out.Op("j:"+vh.HexS(filepath.Join(p, a)), "join", vh.HexS(p), vh.HexS(a))
-	}
 }
 
 // Run drives `cases` cases distributed over the targets by weight.
